@@ -100,3 +100,16 @@ pub fn same<const N: usize>(a: [u32; N], b: [u32; N]) -> bool {
     }
     ok
 }
+
+/// `&'static str` view of the first `len` bytes of an ASCII buffer (the hand parsers take `&'static str`).
+/// Kani: lifetime transmute of a stack buffer that outlives every use in the harness; natively: a leaked copy.
+pub fn leak_ascii(bytes: &[u8; 8], len: usize) -> &'static str {
+    #[cfg(kani)]
+    unsafe {
+        core::mem::transmute::<&str, &'static str>(core::str::from_utf8_unchecked(&bytes[..len]))
+    }
+    #[cfg(not(kani))]
+    {
+        Box::leak(String::from_utf8_lossy(&bytes[..len]).into_owned().into_boxed_str())
+    }
+}
